@@ -127,7 +127,16 @@ def v3_code_tables(F, r):
         if not m:
             continue
         want = "E" + m.group(1)
-        got = {c for fid in F.family(i) for c, _ in _const_codes(F.fns[fid])}
+        fam = list(F.family(i))
+        # private helpers of the same module that only build the error (an extracted `create_e1308_error(action)`) belong to the rule
+        mod = f["module"]
+        for g in list(fam):
+            for _, t in mir.calls(F.fns[g]):
+                tg = t.get("res") or t["callee"]
+                if tg in F.fns and F.fns[tg]["module"] == mod and F.fns[tg]["kind"] != "Closure" and not re.search(r"::check_e\d{4}_", tg) and tg not in fam \
+                        and "FormatError" in (F.fns[tg]["locals"][0] or ""):
+                    fam += F.family(tg)
+        got = {c for fid in fam for c, _ in _const_codes(F.fns[fid])}
         name = util.short_fn(i)
         if got == {want}:
             r.ok(name, f"emits {want}")
